@@ -1,14 +1,15 @@
 /* e_crash - C17: crash while adding objects.  For an append-only session on a pre-populated file the ordered
  * log of physical writes (stream offset, bytes) is recorded through the stdio interposition (unbuffered stream:
  * each library write is one physical write).  Then
- *  (1) no write issued before the flushing call (Hclose/Hsync/Vend/SDend/GRend/ANend) may start below E0 =
+ *  (1) no write issued before the descriptor flush starts (the first write into a pre-existing descriptor block; at the latest the
+ *      flushing call Hclose/Hsync/Vend/SDend/GRend/ANend for sessions that flush nothing) may start below E0 =
  *      end of everything stored before the session (max over descriptor blocks and element extents, computed
  *      by an independent DD-chain parser in this file)            key crash-early-overwrite:<workload>:<api>
  *  (2) for EVERY prefix of the log the image (old file + prefix) is materialised and, in a forked child,
  *      opened with the library and every pre-existing descriptor's element is read back and compared with
  *      the pre-session content.  For workloads that only add low-level elements / Vdatas / Vgroups /
  *      annotations (flush_safe) all prefixes are checked, for the others (SD, GR: metadata is replaced at
- *      close) only the prefixes that end before the flushing call.
+ *      close) the prefixes that end before the descriptor flush starts (also those inside SDend/GRend).
  *                                      keys crash-unopenable:<workload>, crash-old-object-damaged:<workload>
  * Cases 0..NW-1: the append-only workloads of workloads.h; cases >= NW: seeded random H-level sessions
  * (ndds in {4,5,7,16}, 1..14 new elements incl. linked-block and compressed ones => 0..3 new DD blocks).
@@ -51,6 +52,20 @@ static long stored_end(const unsigned char *b, long n)
         off = next;
     }
     return end;
+}
+
+/* is [off, off+len) inside a descriptor block of the image?  (a write there is the descriptor FLUSH) */
+static int in_dd_block(const unsigned char *b, long n, long woff, long wlen)
+{
+    long off = 4; int guard = 0;
+    while (off != 0 && guard++ < 10000) {
+        if (off + 6 > n) return 0;
+        long ndds = be16(b + off), next = (long)be32(b + off + 2);
+        long bend = off + 6 + 12 * ndds;
+        if (woff >= off && woff + wlen <= bend) return 1;
+        off = next;
+    }
+    return 0;
 }
 
 typedef struct { uint16 tag, ref; int32 len; unsigned long sum; } objrec;
@@ -180,16 +195,21 @@ static void run_case(int k)
     printf("INFO workload=%s E0=%ld file0=%ld writes=%ld old_objects=%d\n", w->name, E0, n0, nw, nold);
     hk_stat("sessions", 1); hk_stat("writes", nw);
 
-    /* (1) early overwrite */
-    long first_closer = nw;
+    /* (1) early overwrite: until the descriptor flush starts (the first write into a descriptor block that existed before the session -
+       wherever that happens, also INSIDE SDend/GRend/Vend/Hclose) every write must lie at or beyond E0 */
+    long first_closer = nw, first_flush = nw;
     for (long j = 0; j < nw; j++) if (is_closer(wr_log[j].ctx)) { first_closer = j; break; }
-    for (long j = 0; j < first_closer; j++)
-        if (wr_log[j].off < E0) { char key[128]; snprintf(key, sizeof key, "crash-early-overwrite:%s:%s", w->name, wr_log[j].ctx); hk_fail(key, "write %ld of %ld (off %ld len %ld) lands below E0=%ld before any flushing call", j, nw, wr_log[j].off, wr_log[j].len, E0); break; }
+    for (long j = 0; j < nw; j++) if (in_dd_block(base, n0, wr_log[j].off, wr_log[j].len)) { first_flush = j; break; }
+    if (first_flush < first_closer) first_closer = first_flush;      /* an explicit Hsync-less flush: never count writes after it as "early" */
+    long early_limit = first_flush > first_closer ? first_flush : first_closer;
+    for (long j = 0; j < early_limit; j++)
+        if (wr_log[j].off < E0) { char key[128]; snprintf(key, sizeof key, "crash-early-overwrite:%s:%s", w->name, wr_log[j].ctx); hk_fail(key, "write %ld of %ld (off %ld len %ld) lands below E0=%ld before the descriptor flush (first flush write %ld, first flushing call at write %ld)", j, nw, wr_log[j].off, wr_log[j].len, E0, first_flush, first_closer); break; }
+    hk_stat("writes_before_flush", early_limit);
 
     /* (2) prefix images */
     long cap = n0 + 16; for (long j = 0; j < nw; j++) if (wr_log[j].off + wr_log[j].len + 16 > cap) cap = wr_log[j].off + wr_log[j].len + 16;
     unsigned char *im = calloc(1, (size_t)cap); memcpy(im, base, (size_t)n0); long ilen = n0;
-    long limit = w->flush_safe ? nw : first_closer;
+    long limit = w->flush_safe ? nw : early_limit;     /* SD/GR sessions: every image up to the start of the descriptor flush */
     int bad_open = 0, bad_obj = 0;
     for (long j = 0; j <= limit; j++) {
         if (j > 0) { wr_rec *r = &wr_log[j - 1]; if (r->len > 0) { memcpy(im + r->off, r->bytes, (size_t)r->len); if (r->off + r->len > ilen) ilen = r->off + r->len; } }
